@@ -5,6 +5,7 @@ import (
 	"fmt"
 	"sort"
 	"strings"
+	"syscall"
 
 	"go.amzn.com/lambda/supervisor/model"
 	"go.amzn.com/verifrt/sched"
@@ -240,6 +241,15 @@ func (r *rec) checkEvents(e *sched.Exec) *sched.Failure {
 		}
 		if !okStatus || ev.domain != domain {
 			return fail("1", "event-wrong-status", "event %s (domain %q), kernel: exit code %d signal %d%s", ev.render(), ev.domain, p.Code, p.Sig, r.where(e))
+		}
+		// the event's own reading of that status (the only thing its consumers look at) says the same
+		wantText := fmt.Sprintf("exit status %d", p.Code)
+		if p.Sig != 0 {
+			wantText = "signal: " + syscall.Signal(p.Sig).String()
+		}
+		same := func(a, b *int32) bool { return (a == nil) == (b == nil) && (a == nil || *a == *b) }
+		if !ev.terminated || ev.success != (p.Sig == 0 && p.Code == 0) || ev.text != wantText || !same(ev.viaExited, ev.status) || !same(ev.viaSignal, ev.signo) {
+			return fail("1", "event-misreads-status", "event %s describes itself as success=%v %q (Exited %v, Signaled %v), kernel: exit code %d signal %d%s", ev.render(), ev.success, ev.text, ev.viaExited != nil, ev.viaSignal != nil, p.Code, p.Sig, r.where(e))
 		}
 	}
 	var names []string
